@@ -139,6 +139,13 @@ def clash_inputs(ctx, rng):
                 wats.append(gen.water(tuple(p), chain="W", resseq=500 + w))
         out.append({"what": f"hard clash ALA-{x}-ALA #{k} waters={len(wats)}", "text": gen.pdb_text([heavy] + wats), "args": ["--ff=AMBER", "--noopt"],
                     "light": True})
+    # a carbon of another chain on the axis of a terminal group (-NH3+, -CH3, -OH): only the torsion that ends in a
+    # hydrogen can answer
+    for k in range(40 if ctx.quick else 300):
+        x = rng.choice(sorted(gen.POLAR_PARENTS))
+        got = gen.carbon_contact(rng, x, parent=rng.choice(gen.POLAR_PARENTS[x]), axial=k % 4 != 3)
+        if got:
+            out.append({"what": got[1], "text": gen.pdb_text(got[0]), "args": ["--ff=AMBER"] + ([] if k % 3 else ["--noopt"]), "light": True})
     from .c03 import environments
     for rep in range(2 if ctx.quick else 8):
         for name, chains in environments(rng):
